@@ -340,13 +340,19 @@ func fingerprints(c *chain, thorough bool) []fpCase {
 	add("leaf-upper", up)
 	add("leaf-mixed", mixed(leaf))
 	// single position case flips (letters only): must all be accepted
+	// (digit positions give the unchanged string again: kept so that the number of cases does not
+	// depend on the freshly generated certificate)
 	for i := 0; i < len(leaf); i++ {
-		if leaf[i] >= 'a' {
-			b := []byte(leaf)
+		b := []byte(leaf)
+		if b[i] >= 'a' {
 			b[i] -= 32
-			add("leaf-oneupper", string(b))
+		}
+		add("leaf-oneupper", string(b))
+		if thorough || i%2 == 0 {
 			b = []byte(up)
-			b[i] += 32
+			if b[i] >= 'A' {
+				b[i] += 32
+			}
 			add("leaf-onelower", string(b))
 		}
 	}
@@ -359,13 +365,13 @@ func fingerprints(c *chain, thorough bool) []fpCase {
 				alts = append(alts, (cur+d)%16)
 			}
 		} else {
-			alts = []int{(cur + 1) % 16, cur ^ 8}
+			alts = []int{(cur + 1 + i%14) % 16}
 		}
 		for _, a := range alts {
 			b := []byte(leaf)
 			b[i] = hexdigits[a]
 			add("nibble-changed", string(b))
-			if thorough || a >= 10 {
+			{
 				b = []byte(up)
 				b[i] = strings.ToUpper(hexdigits)[a]
 				add("nibble-changed-upper", string(b))
@@ -632,7 +638,7 @@ func main() {
 	}
 	r.Rule = "full product: 14 server certificate chains (self-signed ECDSA/RSA/Ed25519, expired, not yet valid, wrong host, CA:true, " +
 		"untrusted CA with/without CA in chain, chain to a trusted root valid/expired/wrong host/forged signature) x fingerprint strings derived " +
-		"from that chain (3 case forms, every single-letter case flip, one nibble changed at each of the 64 positions [2 alternatives quick, all 15 thorough], " +
+		"from that chain (3 case forms, every single-letter case flip, one nibble changed at each of the 64 positions [1 alternative per position quick, all 15 thorough; lower and upper case], " +
 		"every truncation, suffixes, extensions, other certificates' digests, sibling certificate with the same key, SPKI/TBS/SHA-1/MD5/SHA-512 digests, " +
 		"colon/space/prefix decorations, full-width digits, constants) x TLS {1.2,1.3} x 4 client usages; real handshakes + 2-byte echo; " +
 		"plus the empty fingerprint through http.Transport. distinct = (chain, fingerprint class, TLS version, client usage, outcome class)"
